@@ -3,7 +3,11 @@
    `fine o = true` means o is Ok or Err: no panic site reached and the fuel (Go stack) not exhausted. *)
 From Coq Require Import List Bool NArith Arith String.
 Import ListNotations.
+Require Import Verif.Seq.Fmt.
+Require Verif.Seq.FmtProps.
+Notation rx_none := Verif.Seq.FmtProps.rx_none (only parsing).
 Require Import Verif.Cmds.Walk Verif.Cmds.WalkProps Verif.Cmds.Model Verif.Cmds.ModelProps Verif.Cmds.Refuted
+               Verif.Cmds.FmtModel Verif.Cmds.FmtModelProps Verif.Cmds.ImpModel Verif.Cmds.ImpModelProps
                Verif.Cmds.Current Verif.Gen.CmdGuards.
 
 (* For every compiled module (dangling call targets and endpoints, cyclic and self calls, one-element and dangling
@@ -84,9 +88,12 @@ Theorem C20_modelled_functions_do_not_panic :
 Proof. exact modelled_functions_do_not_panic. Qed.
 Print Assumptions C20_modelled_functions_do_not_panic.
 
-Theorem C20_only_main_exits : map (fun s => fst (fst s)) (filter (fun s => negb (in_eval (fst (fst s)))) exit_sites) = ["sysl.main"%string].
+Theorem C20_only_main_exits : map (fun s => fst (fst s)) (filter (fun s => negb (in_eval (fst (fst s))) && negb (in_importer (fst (fst s)))) exit_sites) = ["sysl.main"%string].
 Proof. exact only_main_exits. Qed.
 Print Assumptions C20_only_main_exits.
+Theorem C20_importer_exit_sites : map (fun s => fst (fst s)) (filter (fun s => in_importer (fst (fst s))) exit_sites) = ["importer.writer.mustWrite"%string].
+Proof. exact importer_exit_sites. Qed.
+Print Assumptions C20_importer_exit_sites.
 Theorem C20_eval_exit_sites : map (fun s => fst (fst s)) (filter (fun s => in_eval (fst (fst s))) exit_sites)
                               = ["eval.repl.handleInput"; "eval.exprEval.handlePanic"]%string.
 Proof. exact eval_exit_sites. Qed.
@@ -156,3 +163,110 @@ Theorem C20_recursions_accounted :
   forallb (fun f => existsb (String.eqb f) (proved_recursions ++ unproved_recursions)) recursive_functions = true.
 Proof. exact recursions_accounted. Qed.
 Print Assumptions C20_recursions_accounted.
+
+(* ---------------- round 3, second pass: the ERROR paths ---------------- *)
+(* FORMAT STRINGS OF THE MODEL. `sysl sd` and `sysl ints` label calls, applications and diagrams with format strings taken
+   from attributes of the project application (epfmt, appfmt, seqtitle, title) - any text, the model being valid Sysl.
+   fmt_cmd is the command as far as those strings go: the byte-level parser of cmdutils.FormatParser (C13's Seq/Fmt.v,
+   generalised by the discipline of the search expansion), FormatParser.Check (a trial Parse without values) and the
+   up-front check of the command. For the facts read from the CURRENT source, EVERY list of format strings, EVERY
+   compilability of their patterns and EVERY value maps end in Ok or Err. *)
+Theorem C20_fmt_total : forall u rx fmts uses, fine (fmt_cmd fmt_current u rx fmts uses) = true.
+Proof. exact current_fmt_total. Qed.
+Print Assumptions C20_fmt_total.
+Theorem C20_fmt_total_guarded : forall g, fmt_guarded g = true -> forall u rx fmts uses, fine (fmt_cmd g u rx fmts uses) = true.
+Proof. exact fmt_cmd_total. Qed.
+Print Assumptions C20_fmt_total_guarded.
+(* a non-trivial input: every expansion form, a pattern that compiles and one that does not, calls with and without the
+   searched attribute *)
+Example C20_fmt_total_example :
+  fmt_cmd g_all FSd (rx_some ["^w"%string]) ["%(epname)"; "%(@owner~/^w/?%(epname) by %(@owner)|%(epname))"; "%(@k=='v'?yes)"]%string
+          [[("epname", "Fetch"); ("@owner", "warehouse")]; [("epname", "Fetch")]]%string = Ok
+  /\ fmt_cmd g_all FSd (rx_some ["^w"%string]) ["%(@owner~/[a-z/?y|n)"%string] [[("@owner", "warehouse")]]%string = Err.
+Proof. exact fmt_cmd_total_example. Qed.
+Theorem C20_fmt_guards_ok : fmt_guarded fmt_current = true.
+Proof. exact fmt_guards_ok. Qed.
+Print Assumptions C20_fmt_guards_ok.
+(* "every expansion form is fully parsed whatever the values are" is necessary: a parser that compiles the pattern of
+   `%(var~/re/..)` only for a non-empty value passes Check and panics at the first call that carries the attribute *)
+Theorem C20_fmt_lazy_refuted :
+  check_d true rx_none "%(@owner~/(/?y|n)" = true
+  /\ fmt_cmd g_lazy FSd rx_none ["%(@owner~/(/?y|n)"%string] [[("@owner", "w")]]%string = Panic SFmtParse
+  /\ fmt_cmd g_lazy FInts rx_none ["%(@owner~/(/?y|n)"%string] [[("@owner", "w")]]%string = Panic SFmtParse
+  /\ fmt_cmd g_lazy FSd rx_none ["%(@owner~/(/?y|n)"%string] [[("epname", "Fetch")]]%string = Ok.
+Proof. exact lazy_check_refuted. Qed.
+Print Assumptions C20_fmt_lazy_refuted.
+(* ... and so is the up-front check, in each command (ints had none before fixes/C20-17) *)
+Theorem C20_fmt_unchecked_refuted :
+  fmt_cmd g_sd_unchecked FSd rx_none ["%("%string] [[]] = Panic SFmtParse
+  /\ fmt_cmd g_ints_unchecked FInts rx_none ["%(appname"%string] [[("appname", "A")]]%string = Panic SFmtParse
+  /\ fmt_cmd g_ints_unchecked FInts rx_none ["%(a=='"%string] [[]] = Panic SFmtParse
+  /\ fmt_cmd g_ints_unchecked FInts rx_none ["%(a~/(/)"%string] [[]] = Panic SFmtParse
+  /\ fmt_cmd g_no_check FSd rx_none ["%("%string] [[]] = Panic SFmtParse
+  /\ fmt_cmd g_ints_unchecked FSd rx_none ["%("%string] [[]] = Err.
+Proof. exact unchecked_refuted. Qed.
+Print Assumptions C20_fmt_unchecked_refuted.
+(* hang side: FormatParser.Expansions (directly recursive) terminates within 1 + |format| levels *)
+Theorem C20_fmt_expansions_terminate : forall rx self A, parse_d (negb (g_fmt_eager fmt_current)) rx self A <> PFuel.
+Proof. exact fmt_expansions_terminate. Qed.
+Print Assumptions C20_fmt_expansions_terminate.
+
+(* THE IMPORTER'S NAME STACK (`sysl import -f swagger`, pkg/importer/openapi3_legacy.go). A document is the list of the places
+   its schemas sit in (definition, parameter, request body, response), each schema a tree through inline object properties,
+   array items and allOf members, with a failure (duplicate field, circular composition, array without items) possible at
+   every node. For the restore discipline of the CURRENT source every document is converted or refused; popName never
+   meets an empty stack and buildResponses never reads the field of a failed conversion. *)
+Theorem C20_import_total : forall es d, fine (import_doc imp_current es d) = true.
+Proof. exact current_import_total. Qed.
+Print Assumptions C20_import_total.
+Theorem C20_import_total_guarded : forall g, imp_guarded g = true -> forall es d, fine (import_doc g es d) = true.
+Proof. exact import_total. Qed.
+Print Assumptions C20_import_total_guarded.
+(* the invariant behind it: loadTypeSchema leaves the stack as deep as it found it, whatever fails below *)
+Theorem C20_import_stack_balanced : forall r, restores_always r = true -> forall s d, exists o, load r s d = (o, d) /\ fine o = true.
+Proof. exact load_balanced. Qed.
+Print Assumptions C20_import_stack_balanced.
+Example C20_import_total_example :
+  import_doc g_deferred [EDef (Sch KLeaf []); EDef deep_dup] 0 = Err
+  /\ import_doc g_deferred [EResp (Sch (KObj false) [(VField, Sch (KObj false) [(VAllOf true, Sch KLeaf [])])])] 0 = Err
+  /\ import_doc g_deferred [EDef (Sch (KObj false) [(VField, Sch (KObj false) [])]); EParam (Sch (KObj false) []); EBody deep_dup] 0 = Err
+  /\ import_doc g_deferred [EDef (Sch (KObj false) [(VField, Sch (KArr false) [(VItems false, Sch (KObj false) [])])])] 0 = Ok.
+Proof. exact import_total_example. Qed.
+Theorem C20_imp_guards_ok : imp_guarded imp_current = true.
+Proof. exact imp_guards_ok. Qed.
+Print Assumptions C20_imp_guards_ok.
+(* the restore placed behind the error test: popName on the emptied stack for an error inside an inline object (depth 1, 2,
+   composed of its container, inside array items, in a parameter, in a request body) - and the same failure at the top
+   level of a definition is reported as before *)
+Theorem C20_import_after_check_refuted :
+  import_doc g_after_check [EDef (Sch (KObj false) [(VField, Sch (KObj true) [])])] 0 = Panic SNameStack
+  /\ import_doc g_after_check [EDef (Sch (KObj false) [(VField, Sch (KObj false) [(VField, Sch (KObj true) [])])])] 0 = Panic SNameStack
+  /\ import_doc g_after_check [EDef (Sch (KObj false) [(VField, Sch (KObj false) [(VAllOf true, Sch KLeaf [])])])] 0 = Panic SNameStack
+  /\ import_doc g_after_check [EDef (Sch (KObj false) [(VField, Sch (KArr false) [(VItems false, Sch (KArr true) [])])])] 0 = Panic SNameStack
+  /\ import_doc g_after_check [EParam (Sch (KObj true) [])] 0 = Panic SNameStack
+  /\ import_doc g_after_check [EBody deep_dup] 0 = Panic SNameStack
+  /\ import_doc g_after_check [EDef (Sch (KObj true) [])] 0 = Err.
+Proof. exact after_check_refuted. Qed.
+Print Assumptions C20_import_after_check_refuted.
+Theorem C20_import_never_restored_refuted : import_doc g_never [EDef (Sch (KObj false) [(VField, Sch (KObj false) [])])] 0 = Panic SNameStack.
+Proof. exact never_refuted. Qed.
+Print Assumptions C20_import_never_restored_refuted.
+(* partial: what remains true of that slip - a schema that converts converts all the same (no document of the importer's
+   tests can tell the difference) *)
+Theorem C20_import_after_check_partial : forall s d, load RDeferred s d = (Ok, d) -> load RAfterCheck s d = (Ok, d).
+Proof. exact after_check_partial. Qed.
+Print Assumptions C20_import_after_check_partial.
+(* buildResponses reading the field before the error test (the source before fixes/C20-18) *)
+Theorem C20_import_resp_err_refuted :
+  import_doc g_resp_late [EResp (Sch (KObj true) [])] 0 = Panic SImpRespField
+  /\ import_doc g_resp_late [EResp deep_dup] 0 = Panic SImpRespField
+  /\ import_doc g_resp_late [EBody deep_dup] 0 = Err.
+Proof. exact resp_err_refuted. Qed.
+Print Assumptions C20_import_resp_err_refuted.
+
+(* abort sites of the kind "index into a call's result with a literal" in the reached packages: each one is reviewed
+   (Cmds/Current.v says why it is in range, or names it as not guarded); a new one breaks this obligation *)
+Theorem C20_index_sites_reviewed :
+  map (fun s => (fst (fst s), snd s)) (filter (fun s => negb (N.eqb (snd s) 0)) literal_index_sites) = reviewed_index_sites.
+Proof. exact index_sites_reviewed. Qed.
+Print Assumptions C20_index_sites_reviewed.
